@@ -32,7 +32,8 @@ Definition gen_signed (t : ity) (lo hi index peers : Z) : option (Z * Z) :=
     match chk_i64 (index * chunk) with   (* index * chunk_size *)
     | None => None
     | Some off =>
-      let start := sat_i64 (lo + off) in
+      (* .saturating_add(..).min(end).max(start)  (fix F8c) *)
+      let start := Z.max (Z.min (sat_i64 (lo + off)) hi) lo in
       let e := Z.max (Z.min (sat_i64 (start + chunk)) hi) lo in
       (* try_into().unwrap() back into $t *)
       if in_ty t start && in_ty t e then Some (start, e) else None
